@@ -1,6 +1,7 @@
 """C11 — the report lists exactly the findings, each under its own pattern's section (DESIGN 5/C11)."""
 import re
 from runner import Ob
+from rules import depend
 import sites as S
 import terms as T
 import order as O
@@ -31,6 +32,9 @@ def depluralise(name):
 
 def run(ctx, crate):
     obs = []
+    # every finding is listed: the part of a category is rendered iff that category has findings (C12's category guards)
+    obs.append(depend.inherited(ctx, crate, "R11.parts", "report::generation::generate_report", "each category's part is rendered iff that category has findings (C12's obligations)",
+                                "C12", lambda o: o.rule == "R12.category", example="a configuration with optimizations = [] and a vulnerability finding"))
     for cat in ("optimizations", "vulnerabilities", "qa"):
         # ---------------- R11.map
         tab, err = R.section_table(crate, cat)
